@@ -533,7 +533,23 @@ def m_option_and_then2(it, args, callee):
     return _old_and_then(it, args, callee)
 
 
+def m_option_or_else(it, args, callee):
+    opt, clo = args
+    res = []
+    for pc, is_some, payload in opt_cases(it, opt):
+        if is_some:
+            res.append((pc, it._mk_enum("Option", "Some", [payload]), "return", None))
+        elif isinstance(clo, Agg) and clo.ty.startswith("{closure@"):
+            f = it.closure_fn(clo)
+            for (pc2, val, kind, msg) in it.call_fn(f, [clo]):
+                res.append((pc + pc2, val, kind, msg))
+        else:
+            raise Unsupported("Option::or_else with callee %r" % clo)
+    return res
+
+
 MORE_MODELS.update({
+    r"^std::option::Option::<.*>::or_else::<": m_option_or_else,
     r"^core::bool::<impl bool>::then_some::<": m_then_some,
     r"^Result::<.*>::ok$": m_result_ok,
     r"^std::option::Option::<.*>::ok_or::<": m_option_ok_or,
@@ -691,3 +707,15 @@ STD_MODELS.update({
     r"^<quantity::Number as From<f64>>::from$": m_f64_into_number,
     r"RangeInclusive::<f64>::into_inner$": lambda it, a, c: Agg("tuple", {"0": a[0].fields["0"], "1": a[0].fields["1"]}),
 })
+
+
+def m_round_ties_even(it, args, callee):
+    e = it.sem.define("Real", args[0].expr, "v")
+    fl = it.sem.floor(e)
+    # nearest integer, ties to even
+    frac = "(- %s (to_real %s))" % (e, fl)
+    r = "(ite (< %s 0.5) %s (ite (> %s 0.5) (+ %s 1) (ite (= (mod %s 2) 0) %s (+ %s 1))))" % (frac, fl, frac, fl, fl, fl, fl)
+    return SV("f64", "(to_real %s)" % it.sem.define("Int", r, "rte"))
+
+
+STD_MODELS[r"f64::<impl f64>::round_ties_even$"] = m_round_ties_even
